@@ -121,6 +121,11 @@ def classify(cx, pid, spec, results):
         cx.evaluations += 1
         stats['programs'] += 1
         stats['status_' + r['status']] += 1
+        if r.get('premises'):
+            # the decidable graph premises of the solver theorems, evaluated by the model on this program
+            stats['solver_premises_checked'] += 1
+            stats['solver_premises_fwdWF'] += int('fwdWF=1' in r['premises'])
+            stats['solver_premises_bwdWF'] += int('bwdWF=1' in r['premises'])
         for k, v in r.get('stats', {}).items():
             stats[k] += v
         if r['status'] in ('harness-error', 'model-semprog-error'):
